@@ -6,12 +6,14 @@ pub mod c01;
 pub mod c02;
 pub mod c03;
 pub mod c04;
+pub mod c05;
 pub mod c07;
 pub mod c10;
 pub mod c12;
 pub mod c13;
 pub mod c14;
 pub mod c17;
+pub mod c20;
 
 pub fn run(ctx: &Ctx, sh: &mut Shard) {
     match ctx.prop.as_str() {
@@ -19,12 +21,14 @@ pub fn run(ctx: &Ctx, sh: &mut Shard) {
         "C02" => c02::run(ctx, sh),
         "C03" => c03::run(ctx, sh),
         "C04" => c04::run(ctx, sh),
+        "C05" => c05::run(ctx, sh),
         "C07" => c07::run(ctx, sh),
         "C10" => c10::run(ctx, sh),
         "C12" => c12::run(ctx, sh),
         "C13" => c13::run(ctx, sh),
         "C14" => c14::run(ctx, sh),
         "C17" => c17::run(ctx, sh),
+        "C20" => c20::run(ctx, sh),
         p => {
             eprintln!("no monitor for {p}");
             std::process::exit(2);
@@ -37,18 +41,26 @@ pub fn replay(v: &Value, sh: &mut Shard) {
         "C02" => c02::replay(v, sh),
         "C03" => c03::replay(v, sh),
         "C04" => c04::replay(v, sh),
+        "C05" => c05::replay(v, sh),
         "C07" => c07::replay(v, sh),
         "C10" => c10::replay(v, sh),
         "C12" => c12::replay(v, sh),
         "C13" => c13::replay(v, sh),
         "C14" => c14::replay(v, sh),
         "C17" => c17::replay(v, sh),
+        "C20" => c20::replay(v, sh),
         p => {
             eprintln!("no replay for {p}");
             std::process::exit(2);
         }
     }
 }
-pub fn extra_command(_cmd: &str, _args: &[String]) -> bool {
-    false
+pub fn extra_command(cmd: &str, args: &[String]) -> bool {
+    match cmd {
+        "digest-run" => {
+            c20::digest_run(args);
+            true
+        }
+        _ => false,
+    }
 }
